@@ -123,7 +123,7 @@ class PathEnumerator:
             env[fn.node.args.vararg.arg] = ("varargs", fn.node.args.vararg.arg)
         frame = Frame(fn, fn.module, env, self_cls or fn.cls, 0)
         start = Path(TRUE, [], env)
-        return self.block(self.norm.body(fn, fn.node, loop_view=self.loop_view) if self.inline_private else fn.body, [start], frame)
+        return self.block(self.norm.body(fn, fn.node, loop_view=self.loop_view, keep=frozenset(self.no_inline)) if self.inline_private else fn.body, [start], frame)
 
     # ------------------------------------------------------------------------------------------
     def feasible(self, cond: Term) -> bool:
@@ -438,7 +438,7 @@ class PathEnumerator:
                 body_frame = Frame(fr.fn, fr.module, inner_env, fr.self_cls, fr.depth)
             else:
                 body_frame = Frame(info, info.module, inner_env, self_cls or info.cls, fr.depth)
-            outs = self.block(self.norm.body(info if info is not None else fr.fn, d, loop_view=self.loop_view), [q0], body_frame)
+            outs = self.block(self.norm.body(info if info is not None else fr.fn, d, loop_view=self.loop_view, keep=frozenset(self.no_inline)), [q0], body_frame)
         finally:
             self._inline_depth -= 1
             if info is not None:
@@ -475,8 +475,9 @@ class PathEnumerator:
             p.events.append(Event("assign", st, v, extra=tg.id))
             return
         if isinstance(tg, (ast.Tuple, ast.List)):
-            if v[0] in ("tuple", "list") and len(v[1]) == len(tg.elts):
-                for t2, v2 in zip(tg.elts, v[1]):
+            parts = self.ev.unpack(v, len(tg.elts)) if not any(isinstance(x, ast.Starred) for x in tg.elts) else None
+            if parts is not None:
+                for t2, v2 in zip(tg.elts, parts):
                     self._assign(t2, v2, p, f, st)
             else:
                 for i, t2 in enumerate(tg.elts):
